@@ -121,7 +121,7 @@ func cmdVerify(args []string) {
 		vs := solveAll(res.Ctx, res.Ctx.obls, dir, *timeout, *workers, 1)
 		ok := 0
 		for _, v := range vs {
-			good := (v.Status == "unsat" && !v.Obl.WantSat) || (v.Status == "sat" && v.Obl.WantSat)
+			good := verdictGood(v)
 			if good {
 				ok++
 			} else {
@@ -145,7 +145,7 @@ func cmdVerify(args []string) {
 			}
 		}
 		fmt.Printf("FUNC %s: %d/%d obligations discharged\n", k, ok, len(vs))
-		if *verbose {
+		if *verbose || ok != len(vs) {
 			var as []string
 			for a := range res.Ctx.assumed {
 				as = append(as, a)
